@@ -375,10 +375,25 @@ def install(w):
 
     def p(fn):
         def h(it, *a):
+            from pyvc.codec import VOpt
+            conds = []
+            a = list(a)
+            for i, x in enumerate(a):
+                if isinstance(x, VOpt):      # Optional[type]: the predicate holds of the type, if any
+                    conds.append(z3.Not(x.is_none))
+                    a[i] = x.val
             if not all(isinstance(x, (VTy, VRef)) for x in a):
                 return VBool(False)   # not a type object (e.g. None): no type predicate holds
-            return VBool(fn(*[x.t for x in a]))
+            return VBool(z3.And(*conds, fn(*[x.t for x in a])) if conds else fn(*[x.t for x in a]))
         return h
+
+    def f_kind_is(it, t, name):
+        from pyvc.codec import VOpt
+        if isinstance(t, VOpt) and isinstance(t.val, VTy):
+            return VBool(z3.And(z3.Not(t.is_none), tkind(t.val.t) == K[name.lit]))
+        if isinstance(t, VTy):
+            return VBool(tkind(t.t) == K[name.lit])
+        return VBool(False)   # None / other values have no kind
     w.spec_funcs.update({
         "EqT": p(EQT), "Sub": p(SUB), "Compat": p(COMPAT), "SameShapeW": p(SHAPE),
         "InputTy": p(INPUT), "OutputTy": p(OUTPUT),
@@ -386,8 +401,7 @@ def install(w):
         "possible": p(possible),
         "of": lambda it, t: VTy(of_type(t.t)),
         "ty_rank": lambda it, t: VInt(rank(t.t)),
-        "kind_is": lambda it, t, name: (VBool(tkind(t.t) == K[name.lit]) if isinstance(t, VTy)
-                                        else VBool(False)),   # None / other values have no kind
+        "kind_is": f_kind_is,
         "abstract_ty": p(lambda t: z3.Or(tkind(t) == K["INTERFACE"], tkind(t) == K["UNION"])),
         "composite_ty": p(lambda t: z3.Or(tkind(t) == K["OBJECT"], tkind(t) == K["INTERFACE"],
                                           tkind(t) == K["UNION"])),
